@@ -1,6 +1,7 @@
 #ifndef TULZ_SUBJECT_H
 #define TULZ_SUBJECT_H
 
+#include <atomic>
 #include <forward_list>
 #include <set>
 #include <stdexcept>
@@ -58,7 +59,9 @@ public:
             }
 
             ~RoundGuard() {
-                if (--m_subject.m_notifyDepth == 0) {
+                // several threads may notify concurrently (see `ConcurrentSubjectRouter`):
+                // the list is only written when something has been parked in it
+                if (--m_subject.m_notifyDepth == 0 && !m_subject.m_graveyard.empty()) {
                     m_subject.m_graveyard.clear();
                 }
             }
@@ -117,7 +120,7 @@ private:
 
     // see `notify`
     std::forward_list<ObserverPtr_t> m_graveyard;
-    size_t m_notifyDepth {0};
+    std::atomic<size_t> m_notifyDepth {0};
 };
 }
 
